@@ -43,8 +43,8 @@ TEXT.update({
             "Assumed: u64::count_ones is the population count (A-POPCNT), Arc / thread spawn / epoll_ctl are opaque (R23, argument contracts); more than 64 queues overflow `mask >> index` (A-NQ64, precondition)."),
     "C18": ("Proxy: gate, exactly one frame with NEED_REPLY iff reply-ack, with reply-ack exactly one acknowledgement consumed and success iff it matches with value 0; server: prologue + every arm: handler invoked exactly once with the decoded body and the lent descriptor, acknowledgement iff reply-ack and NEED_REPLY with value n / -errno / -EINVAL (Verus, all handler outcomes).",
             "k-th ack answers k-th request follows from one-frame-out / one-frame-in per call under the lock (A-LOCK); errno == i32::MIN excluded (A-ERRNO)."),
-    "C19": ("Every operation of the blanket VhostBackend impl, VhostKernFeatures, vDPA, net and vsock: exactly one ioctl with the UAPI request number (table generated from <linux/vhost.h>), argument bytes at the UAPI offsets equal to the caller's values, result equal to what the kernel wrote back; invalid ring configurations refused with zero ioctls; vDPA passes guest addresses unchanged; IOTLB v1/v2 parse round trip; binding layouts == UAPI layouts (Kani, complete); send_iotlb_msg hands exactly one write(2) the V2 struct iff IOTLB_MSG_V2 was acknowledged, with the type tag, the full struct size and the caller's fields in the iotlb member; ioctl_result/io_result (Verus).",
-            "send_iotlb_msg is verified on struct level in Verus (bindgen unions modelled by their one used member; byte offsets of the fields are the Kani layout obligation c19_binding_layouts); kernel-backend host-address translation needs mmap'ed guest memory and is not covered; set_mem_table / vDPA config buffers bounded (thorough)."),
+    "C19": ("Every operation of the blanket VhostBackend impl, VhostKernFeatures, vDPA, net and vsock: exactly one ioctl with the UAPI request number (table generated from <linux/vhost.h>), argument bytes at the UAPI offsets equal to the caller's values, result equal to what the kernel wrote back; invalid ring configurations refused with zero ioctls; vDPA passes guest addresses unchanged; IOTLB v1/v2 parse round trip; binding layouts == UAPI layouts (Kani, complete). In Verus (unit kern, no bound on region counts / buffer lengths): set_mem_table issues one VHOST_SET_MEM_TABLE whose entry j is region j unchanged (empty / over-long tables refused with zero ioctls); vDPA get_config / set_config issue one ioctl with the caller's offset, length and bytes; send_iotlb_msg hands one write(2) the V2 struct iff IOTLB_MSG_V2 was acknowledged with the caller's fields, dma_map / dma_unmap build UPDATE (RO/RW) / INVALIDATE on top of it; ioctl_result / io_result.",
+            "Boundary: the ioctl layer and write(2) (A-OS), FamStructWrapper (vmm-sys-util, A-FAM), VhostMemory's byte layout (A-VHOSTMEM, cross-checked by Kani for 1..3 entries). The former bounded Kani harnesses for set_mem_table / vDPA config exhausted CBMC's memory and are no longer registered. Kernel-backend host-address translation needs mmap'ed guest memory and is not covered."),
 })
 DEFAULT = ("Kani leaf harnesses on the real crate and Verus contracts on mechanically extracted functions; see DESIGN.md section 5.",
            "see evidence assumptions")
